@@ -283,6 +283,15 @@ namespace clangimport {
             notFound(addr);
         }
 
+        // a later declaration of an entity that is already declared: the name token carries the
+        // variable of the earlier declaration and the new address is an alias of it
+        void varRedecl(const std::string &addr, Token *def, Variable *var) {
+            const Decl decl(def, var);
+            mDeclMap.emplace(addr, decl);
+            decl.ref(def);
+            notFound(addr);
+        }
+
         void replaceVarDecl(const Variable *from, Variable *to) {
             for (auto &it: mDeclMap) {
                 Decl &decl = it.second;
@@ -1467,7 +1476,21 @@ void clangimport::AstNode::createTokensFunctionDecl(TokenList &tokenList)
             }
         } else if (vartok) {
             const std::string addr = child->mExtTokens[0];
-            mData->ref(addr, vartok);
+            // later declaration of the function: the parameter is the argument with the same
+            // index of the earlier declaration (when that one has a name)
+            Variable *earlier = nullptr;
+            for (Variable &arg : function->argumentList) {
+                if (arg.index() == i) {
+                    earlier = &arg;
+                    break;
+                }
+            }
+            if (earlier && earlier->nameToken()) {
+                if (scope && !earlier->scope())
+                    *earlier = Variable(*earlier, scope);
+                mData->varRedecl(addr, vartok, earlier);
+            } else
+                mData->ref(addr, vartok);
         }
     }
     Token *par2 = addtoken(tokenList, ")");
